@@ -289,3 +289,7 @@ package model
 // type parameter of the calling function; the list lives in the T value behind the receiver
 //@ iface model.Updater.UpdateList
 //@   modifies cells(T), world, wm
+
+// lock discipline (C17): the two package-level mutexes of the use-case helpers
+//@ lock nmMux level 100
+//@ lock uciMux level 110
